@@ -246,7 +246,7 @@ def d4_ownership(chk, repo):
     aliasing, why = cm.valid_setter_stores_alias(repo)
     al, _ = cm.make_alias(repo)
     fcls = repo.cls(FIELD)
-    n_sites = 0
+    n_sites = n_ops = 0
     for fi in sorted(repo.funcs.values(), key=lambda f: f.qual):
         if not (fi.qual.startswith("field.Field.") or fi.qual in ("plotting.util.inplane_angle",)):
             continue
@@ -273,7 +273,19 @@ def d4_ownership(chk, repo):
             ok = not (aliasing and shared)
             chk.ob(f"{fi.qual}::ctor#{i}::kw=valid::ownership", ok, "C08.D4",
                    f"passes valid={v.src(kwnode[0])} which shares memory with {shared}; {why}", v.f, s.call)
+        if any("valid" in s.args for s in sites):
+            # the operation reads the operand's validity: it must not write into it (an in-place `valid &= ...` on the array
+            # `self.valid` hands out changes the operand's mask for every later operation)
+            bad = []
+            for st, what, roots in write_effects(v, al):
+                hit = sorted(r for r in roots if r.endswith("._valid") or r.endswith(".valid"))
+                if hit and not what.startswith("store ."):        # rebinding the attribute is the in-place API, not a write into the array
+                    bad.append(f"`{v.src(st)[:60]}` ({what}) writes into {hit}")
+            n_ops += 1
+            chk.ob(f"{fi.qual}::operand-validity-untouched", not bad, "C08.D4",
+                   "; ".join(bad) or "no write reaches an operand's validity array", v.f)
     chk.require(n_sites >= 20, f"C08.D4: only {n_sites} constructor sites with a valid= argument found (floor 20)")
+    chk.require(n_ops >= 15, f"C08.D4: only {n_ops} operations that pass a validity found (floor 15)")
     # no operator returns self
     for name in OPERATOR_DUNDERS:
         m = fcls.methods.get(name)
